@@ -6,6 +6,7 @@ import (
 	"errors"
 	"fmt"
 	"testing"
+	"time"
 
 	"go.lstv.dev/util/date"
 	"pgregory.net/rapid"
@@ -27,6 +28,26 @@ type Case struct {
 	To       *YMD  `json:"to"`
 	Probes   []YMD `json:"probes"`
 	Scribble YMD   `json:"scribble"`
+	// Reused: the bound and probe values are not made by New but written over variables that held other dates before
+	// (method form of FromTime; the zero date through the zero time).
+	Reused bool `json:"values_written_over_used_variables,omitempty"`
+}
+
+func (v YMD) reused() date.Date {
+	d := date.New(int(v.Y%3000)+2500, date.Month(1+(v.M+4)%12), 1+(v.D+9)%28)
+	if (v == YMD{1, 1, 1}) {
+		d.FromTime(time.Time{})
+	} else {
+		d.FromTime(time.Date(int(v.Y), time.Month(v.M), v.D, 6, 0, 0, 0, time.UTC))
+	}
+	return d
+}
+
+func (c Case) mk(v YMD) date.Date {
+	if c.Reused && v.Y > -100000000 && v.Y < 100000000 {
+		return v.reused()
+	}
+	return v.date()
 }
 
 func (v YMD) ord() int64      { return ref.DaysFromCivil(v.Y, v.M, v.D) }
@@ -41,11 +62,11 @@ func judge(c Case, w *vkit.W) {
 	var fromVar, toVar date.Date
 	var fp, tp *date.Date
 	if c.From != nil {
-		fromVar = c.From.date()
+		fromVar = c.mk(*c.From)
 		fp = &fromVar
 	}
 	if c.To != nil {
-		toVar = c.To.date()
+		toVar = c.mk(*c.To)
 		tp = &toVar
 	}
 	f, err := date.FilterFromTo(fp, tp)
@@ -74,7 +95,7 @@ func judge(c Case, w *vkit.W) {
 				}
 				want := (c.From == nil || c.From.ord() <= p.ord()) && (c.To == nil || p.ord() <= c.To.ord())
 				for rep := 0; rep < 2; rep++ {
-					if got := f.Contains(p.date()); got != want {
+					if got := f.Contains(c.mk(p)); got != want {
 						w.Fail(c, "contains", fmt.Sprintf("%s: filter[%v, %v].Contains(%v) = %v (ask %d of this date, pass %d), the inclusive interval says %v", stage, c.From, c.To, p, got, rep+1, round+1, want))
 					}
 				}
@@ -120,7 +141,7 @@ func judge(c Case, w *vkit.W) {
 	}
 	for _, p := range c.Probes {
 		want := (from2 == nil || from2.ord() <= p.ord()) && (to2 == nil || p.ord() <= to2.ord())
-		if got := f2.Contains(p.date()); got != want {
+		if got := f2.Contains(c.mk(p)); got != want {
 			w.Fail(c, "contains", fmt.Sprintf("filter rebuilt from the same variables, now [%v, %v].Contains(%v) = %v, the inclusive interval says %v", from2, to2, p, got, want))
 		}
 	}
@@ -413,6 +434,29 @@ func TestCheck(t *testing.T) {
 						judge(c, w)
 						w.EvalN(int64(len(ends)), int64(len(ends)))
 					}
+				}
+			}
+		})
+	})
+
+	// Phase A7: the same questions with bound and probe values that were written over variables which held other dates before.
+	r.Phase("A7: bounds and probes written over used variables (method form of FromTime; the zero date through the zero time), window around 0001-01-01 and ordinary dates", func() {
+		pts := []YMD{{0, 12, 30}, {0, 12, 31}, {1, 1, 1}, {1, 1, 2}, {1, 12, 31}, {2, 1, 1}, {1999, 12, 31}, {2000, 2, 29}, {2000, 3, 1}, {2024, 2, 29}, {2024, 12, 31}, {9999, 12, 31}, {-1, 6, 15}}
+		r.Parallel(int64(len(pts)*len(pts)), int64(len(pts)), func(w *vkit.W, lo, hi int64) {
+			for k := lo; k < hi; k++ {
+				f, t := pts[int(k)/len(pts)], pts[int(k)%len(pts)]
+				for shape := 1; shape <= 3; shape++ {
+					c := Case{Probes: pts, Scribble: YMD{2010, 5, 5}, Reused: true}
+					if shape&1 != 0 {
+						ff := f
+						c.From = &ff
+					}
+					if shape&2 != 0 {
+						tt := t
+						c.To = &tt
+					}
+					judge(c, w)
+					w.EvalN(int64(len(pts)), int64(len(pts)))
 				}
 			}
 		})
